@@ -252,3 +252,17 @@ reg("C18", "E3-fault-subsets",
     "Remotes are base-class stores on the local file system (fault injection); R1 with remote index, R2 without. "
     "Over-push to an additional remote is allowed.",
     "DESIGN.md §4 C18")
+
+reg("C15", "E4-crash-points",
+    "exhaustive crash-point enumeration: one forked child per file-system-mutating event (audit hook) and per half-written copy of the real operation, audit, re-run, comparison with the uninterrupted run",
+    "4 scenarios (stage+transfer into a local store with state; index build/md5/save of nested directories; closed "
+    "store-to-store transfer with a remote index; upload staging) x 2 (thorough 3) trees x initial store "
+    "{empty, half populated} x which object is first in an add batch x privilege {as invoked, CAP_DAC_OVERRIDE/"
+    "FOWNER dropped}: ~1.6*10^3 (quick) kill points, each = after event n-1 / mid-copy. At the kill point: no "
+    "mismatching object is 0o444 or vouched for by a valid state row, every directory object present has its "
+    "files, workspace rows tell the truth. After re-running: the non-temp store contents equal the uninterrupted "
+    "run's byte for byte and every object matches its name. The link-probe truncation (F5) is recorded as a known "
+    "finding (4 signatures).",
+    "Crash = process kill at Python-visible file-system calls; SQLite atomicity trusted; no power-loss model "
+    "(dvc-data never fsyncs). Temp names tolerated. A valid object left writable after the re-run is only counted.",
+    "DESIGN.md §4 C15")
